@@ -42,8 +42,22 @@ func main() {
 	if s := os.Getenv("VERIF_SEED"); s != "" {
 		seed, _ = strconv.Atoi(s)
 	}
+	ov := map[string][]byte{}
+	for _, o := range overlays {
+		i := strings.Index(o, "=")
+		if i < 0 {
+			fmt.Println("bad -overlay", o)
+			os.Exit(2)
+		}
+		b, err := os.ReadFile(o[i+1:])
+		if err != nil {
+			fmt.Println("BROKEN:", err)
+			os.Exit(2)
+		}
+		ov[o[:i]] = b
+	}
 	if *dump != "" {
-		w, err := LoadWorld(*repo, nil, *arch)
+		w, err := LoadWorld(*repo, ov, *arch)
 		if err != nil {
 			fmt.Println(err)
 			os.Exit(2)
@@ -62,20 +76,6 @@ func main() {
 			ids = append(ids, k)
 		}
 		sort.Strings(ids)
-	}
-	ov := map[string][]byte{}
-	for _, o := range overlays {
-		i := strings.Index(o, "=")
-		if i < 0 {
-			fmt.Println("bad -overlay", o)
-			os.Exit(2)
-		}
-		b, err := os.ReadFile(o[i+1:])
-		if err != nil {
-			fmt.Println("BROKEN:", err)
-			os.Exit(2)
-		}
-		ov[o[:i]] = b
 	}
 	w, err := LoadWorld(*repo, ov, *arch)
 	exit := 0
